@@ -4,7 +4,7 @@
    labels, back-references, reference ids and texts; an anonymous footnote is never named (MyST footnotes always
    carry their label).  The remaining methods (number_footnote_references and the resolve methods) are tied to the
    transcription by running both, extracted, on every enumerated registry (props/C11.py corr_docutils_only). *)
-From Coq Require Import List NArith Bool Lia.
+From Coq Require Import List NArith Bool Lia PeanoNat Permutation.
 From MV Require Import Base.PyStr Base.Res Refs.RUtil Refs.RUtilProofs Gen.Transforms Refs.Foot Refs.FootOps
                        Refs.FootProofs Refs.DocutilsOps Gen.DocutilsFootSrc.
 Import ListNotations.
@@ -146,4 +146,111 @@ Proof.
   rewrite (fold_res_ext' _ nf_step).
   - rewrite nf_fold. destruct (number_footnotes _ _ _); reflexivity.
   - intros st f. apply generated_step_is_nf_step.
+Qed.
+
+(* ================================================================ the remaining methods *)
+
+Lemma mem_nat_In x l : mem_nat x l = true <-> In x l.
+Proof.
+  induction l as [|y l IH]; simpl; [split; [discriminate|tauto]|].
+  rewrite orb_true_iff, IH, Nat.eqb_eq. split; intros [H|H]; auto.
+Qed.
+
+Lemma mem_nat_false x l : mem_nat x l = false <-> ~ In x l.
+Proof.
+  split; intro H.
+  - intro Hin. apply mem_nat_In in Hin. congruence.
+  - destruct (mem_nat x l) eqn:E; auto. apply mem_nat_In in E. contradiction.
+Qed.
+
+(* ---- number_footnote_references ---- *)
+Definition nfr_inner (ds : dstate) (ref : rf) : res dstate :=
+  if orb (ref_resolved ds ref) (ref_has_refname ds ref) then Ok ds
+  else (let ds := mark_problematic ds ref in Ok ds).
+
+Definition nfr_step (__st : dstate * nat * bool) (ref : rf) : res (dstate * nat * bool) :=
+  let '(ds, i, __brk) := __st in
+  if __brk then Ok (ds, i, __brk) else
+  (if orb (ref_resolved ds ref) (ref_has_refid ds ref) then Ok (ds, i, __brk)
+   else match nth_error (ds_autolabels ds) i with
+        | Some label =>
+            (let ds := ref_add_text ds ref label in
+             do id <- nameid_lookup ds label;
+             do footnote <- foot_by_id ds id;
+             let ds := ref_set_refid ds ref id in
+             let ds := add_backref ds footnote ref in
+             let ds := ref_set_resolved ds ref in
+             let i := S i in Ok (ds, i, __brk))
+        | None =>
+            (let ds := add_error ds WTooMany in
+             do ds <- fold_res nfr_inner (skipn i (g_autofootnote_refs (ds_regs ds))) ds;
+             Ok (ds, i, true))
+        end).
+
+Lemma nfr_unfold ds sn :
+  number_footnote_references_src ds sn
+  = do st <- fold_res nfr_step (g_autofootnote_refs (ds_regs ds)) (ds, O, false);
+    let '(ds, i, __stopped) := st in Ok ds.
+Proof. reflexivity. Qed.
+
+Lemma nfr_stop L : forall ds i, fold_res nfr_step L (ds, i, true) = Ok (ds, i, true).
+Proof. induction L as [|r L IH]; intros ds i; simpl; auto. Qed.
+
+Lemma nfr_inner_noop L : forall ds,
+  (forall r, orb (ref_resolved ds r) (ref_has_refname ds r) = true) -> fold_res nfr_inner L ds = Ok ds.
+Proof.
+  induction L as [|r L IH]; intros ds H; simpl; auto.
+  unfold nfr_inner at 1. rewrite H. simpl. apply IH. exact H.
+Qed.
+
+Lemma nfr_run L : forall ds,
+  ds_autolabels ds = [] ->
+  (forall r, orb (ref_resolved ds r) (ref_has_refname ds r) = true) ->
+  fold_res nfr_step L (ds, O, false)
+  = Ok (if existsb (fun r => negb (orb (ref_resolved ds r) (ref_has_refid ds r))) L
+        then (add_error ds WTooMany, O, true) else (ds, O, false)).
+Proof.
+  induction L as [|r L IH]; intros ds Hl Hp; simpl; auto.
+  destruct (orb (ref_resolved ds r) (ref_has_refid ds r)) eqn:E; simpl.
+  - apply IH; auto.
+  - rewrite Hl. simpl.
+    rewrite nfr_inner_noop by (intro r0; apply Hp). simpl. apply nfr_stop.
+Qed.
+
+(* ---- resolve_references ---- *)
+Definition touch2 (f : fn) (ds : dstate) (r : rf) : dstate :=
+  ref_set_resolved (add_backref (ref_set_refid (ref_del_refname ds r) r (fn_id f)) f r) r.
+
+Definition touched2 (f : fn) (ds : dstate) (refs : list rf) : dstate :=
+  upd ds (ds_labels ds)
+      (ds_backlog ds ++ map (fun r => (f_label f, r_idx r)) refs)
+      (ds_text ds)
+      (ds_refid ds ++ map (fun r => (r_idx r, f_label f)) refs)
+      (ds_norefname ds ++ map r_idx refs) (ds_resolved ds ++ map r_idx refs)
+      (ds_problem ds) (ds_autolabels ds) (ds_errors ds) (ds_regs ds).
+
+Lemma touched2_nil f ds : touched2 f ds [] = ds.
+Proof. unfold touched2, upd. simpl. rewrite !app_nil_r. destruct ds; reflexivity. Qed.
+
+Lemma resolve_references_spec f refs : forall ds,
+  NoDup (ds_resolved ds ++ map r_idx refs) ->
+  resolve_references_src ds f refs = Ok (touched2 f ds refs).
+Proof.
+  unfold resolve_references_src. cbv zeta.
+  induction refs as [|r refs IH]; intros ds Hnd.
+  - simpl. rewrite touched2_nil. reflexivity.
+  - cbn [fold_res map] in *.
+    assert (Hfresh : ref_resolved ds r = false).
+    { unfold ref_resolved. apply mem_nat_false. intro Hin.
+      apply NoDup_remove_2 in Hnd. apply Hnd. apply in_or_app. left. exact Hin. }
+    rewrite Hfresh. cbn [bind].
+    specialize (IH (touch2 f ds r)).
+    unfold touch2 at 1 in IH.
+    match goal with |- (do ds0 <- fold_res ?F refs ?D; Ok ds0) = _ =>
+      change D with (touch2 f ds r) end.
+    rewrite IH.
+    + unfold touched2, touch2, ref_set_resolved, add_backref, ref_set_refid, ref_del_refname, upd, fn_id.
+      simpl. rewrite <- !app_assoc. reflexivity.
+    + unfold touch2, ref_set_resolved, add_backref, ref_set_refid, ref_del_refname, upd. simpl.
+      rewrite <- app_assoc. simpl. exact Hnd.
 Qed.
